@@ -148,8 +148,11 @@ def r3(ctx):
     fp = ctx.fn(repo.func(MSG + ".Request.parse"))
     rl = [c for c in method_calls(fp, "read_line")]
     ptests = [t for t in fp.cfg.tests() if isinstance(t.ast, ast.Call) and isinstance(t.ast.func, ast.Attribute) and t.ast.func.attr == "proxy_protocol"]
-    ctx.check("C08.R3", len(rl) == 2 and len(ptests) == 1 and all(x not in fp.cfg.reachable([(ptests[0], "false")], follow_exc=False) for x in nodes_with(fp, rl[1])),
-              key(fp, "second-line"), site(fp), "the request line is re-read without a PROXY line having been accepted", "second read_line only after a PROXY line")
+    # (lines read *before* the PROXY test -- e.g. an empty line that is skipped -- are not its business)
+    gp = fp.cfg
+    after = [x for c in rl for x in nodes_with(fp, c) if ptests and x in gp.reachable([ptests[0]], follow_exc=False)]
+    ctx.check("C08.R3", len(rl) >= 2 and len(ptests) == 1 and bool(after) and all(x not in gp.reachable([(ptests[0], "false")], follow_exc=False) for x in after),
+              key(fp, "second-line"), site(fp), "the request line is re-read without a PROXY line having been accepted", "a further read_line only after a PROXY line")
 
 
 def r4(ctx):
